@@ -35,7 +35,7 @@ Frames: `C11_invalid_json_only_replies`, `C11_not_an_object_only_replies`,
 Observability of "the options exactly as they were": `C11_options_reply`, `C11_get_reply` (the answers of `options` /
 `get` are computed from the watcher's record alone), `C11_options_function_of_records`, `C11_refusal_same_options`,
 `C11_sameDaemon_same_options` (after a refusal every `options` / `get` request is answered as before),
-`C11_get_unknown_key_noop`, `C11_readonly_options_noop`.
+`C11_get_unknown_key_noop`, `C11_readonly_options_noop`, `C11_message_readonly_options_only_replies`.
 
 Known finding F4 (kept, not repaired): `set` applies its options one after the other at *execution*
 time; an option that passes `validate_option` but is refused by `Watcher.set_opt` (e.g. an unknown
@@ -2639,6 +2639,43 @@ theorem C11_readonly_options_noop (cmd : String)
   · rw [veq_readonly_all _ (by decide) props s hr]; rfl
   · rw [veq_readonly_all _ (by decide) props s hr]; rfl
 
+theorem C11.readonly_options_ne_future (cmd : String)
+    (hc : cmd ∈ ["options", "get", "globaloptions", "dstats", "listsockets"]) (props : JVal) (s : State)
+    (tid : Nat) (x : String) : (validateExecute cmd props s).1 ≠ .ok (.future tid x) := by
+  by_cases hr : reqOk cmd props
+  swap
+  · rw [veq_req_fail _ _ _ hr]; intro h; cases h
+  simp only [List.mem_cons, List.mem_nil_iff, or_false] at hc
+  rcases hc with rfl | rfl | rfl | rfl | rfl
+  · rw [veq_readonly_all _ (by decide) props s hr]; exact execOptions_ne_future props s tid x
+  · rw [veq_readonly_all _ (by decide) props s hr]; exact execGet_ne_future props s tid x
+  · rw [veq_readonly_all _ (by decide) props s hr]; exact globalOptionsBody_ne_future props tid x
+  · rw [veq_readonly_all _ (by decide) props s hr]; intro h; cases h
+  · rw [veq_readonly_all _ (by decide) props s hr]; intro h; cases h
+
+/-- … **as frames**: a frame that carries `options`, `get`, `globaloptions`, `dstats` or `listsockets` (command name in
+    any letter case) — whatever its properties, whatever it is answered, whatever is in flight — leaves the daemon
+    exactly as it was, up to the one reply -/
+theorem C11_message_readonly_options_only_replies (cid : Option String) (j : JVal) (s : State) (name : String)
+    (hc : j.get? "command" = some (.str name))
+    (hcmd : pyLower name ∈ ["options", "get", "globaloptions", "dstats", "listsockets"]) :
+    sameDaemon s (handleMessage cid (some j) s).2 := by
+  have h1 := C11_readonly_options_noop (pyLower name) hcmd (propsOf j) (clearDone s).2
+  have h2 := readonly_options_ne_future (pyLower name) hcmd (propsOf j) (clearDone s).2
+  generalize hve : validateExecute (pyLower name) (propsOf j) (clearDone s).2 = ve at h1 h2
+  obtain ⟨r, s1⟩ := ve
+  simp only at h1 h2
+  subst h1
+  apply C11_quiet_only_replies cid j s name hc r hve
+  cases r with
+  | error e => trivial
+  | ok res =>
+    cases res with
+    | future tid x => exact absurd rfl (h2 tid x)
+    | value b => trivial
+    | statusPayload st => trivial
+    | unmodelled => trivial
+
 /-! ## non-vacuity: the hypotheses instantiated on concrete states and requests -/
 
 /-- three watchers (`a` stopped, `B` active with two workers, the singleton `solo`), a `stop`
@@ -2807,6 +2844,9 @@ example : validateExecute "get" (.obj [("name", .str "a"), ("keys", .arr [.str "
 example : (validateExecute "get" (.obj [("name", .str "a"), ("keys", .null)]) exFree).1 = .error (.other "TypeError") := by
   rw [C11_get_reply _ _ "a" 1 _ rfl rfl (by decide +kernel)]
   rfl
+example : sameDaemon exBusy (handleMessage (some "c1") (some (.obj [("id", .int 4), ("command", .str "get"),
+      ("properties", .obj [("name", .str "b"), ("keys", .arr [.str "nosuch"])])])) exBusy).2 :=
+  C11_message_readonly_options_only_replies _ _ _ "get" rfl (by decide +kernel)
 /-- the refusal of the `stop` above is followed by the same `options` answer -/
 example : validateExecute "options" (.obj [("name", .str "B")])
       (validateExecute "stop" (.obj [("name", .str "B"), ("match", .str "simple")]) exBusy).2
